@@ -5,8 +5,8 @@
 
      forall i snap tr, c10_scope i = true -> model_run i = Some (true, snap, tr) -> oracle i tr = true
 
-   It is FALSE of the faithful model on two input classes (open findings C10-F1 and C10-F3, see
-   the _refuted theorems; the former C10-F2 is repaired in the source, its witness is kept as a
+   It is FALSE of the faithful model on three input classes (open findings C10-F1, C10-F3 and C10-F4,
+   see the _refuted theorems; the former C10-F2 is repaired in the source, its witness is kept as a
    `_now_accepted` theorem).  What is proved for ALL states / histories of the model:
      - nothing is written by any operation other than save()            (C10_silent_until_save)
      - save() writes nothing when nothing is pending, otherwise exactly one SETCONF line, and
@@ -129,6 +129,20 @@ Theorem C10_failed_listop_now_accepted :
     /\ nth_error (map o_res tr) 1 = Some (XBool false) /\ map o_wrote tr = [[]; []; []].
 Proof. exact f2_now_accepted. Qed.
 Print Assumptions C10_failed_listop_now_accepted.
+
+Theorem C10_odd_element_refuted :
+  exists i, odd_element_saved i = true /\ c10_scope i = true /\
+            exists snap tr, model_run i = Some (true, snap, tr) /\ oracle i tr = false.
+Proof. exists w_f4. destruct f4_refuted as [[H1 H2] [H3 _]]. auto. Qed.
+Print Assumptions C10_odd_element_refuted.
+
+(* falsy list elements (the integer 0, an empty string) are put on the wire like any other element *)
+Theorem C10_falsy_elements_are_sent :
+  c10_scope w_falsy = true /\ c10_known w_falsy = false /\
+  exists snap tr, model_run w_falsy = Some (true, snap, tr) /\ oracle w_falsy tr = true
+    /\ concat (map o_wrote tr) = [bs "SETCONF Log=0 Log= Log=x"].
+Proof. exact falsy_example. Qed.
+Print Assumptions C10_falsy_elements_are_sent.
 
 Theorem C10_edit_while_detached_refuted :
   exists i, edit_while_detached i = true /\ c10_scope i = true /\
